@@ -32,10 +32,10 @@ def prepare():
     return out
 
 
-def run_det(ctx, n, g, race=False):
+def run_det(ctx, n, g, race=False, stress=0):
     b = vlib.build_harness("c20", race=race)
     env = dict(os.environ, GORACE="halt_on_error=0")
-    rc, out, err = vlib.run_bin(b, ["-seed", str(ctx.seed), "-n", str(n), "-g", str(g), "-repo", vlib.REPO], timeout=3000, env=env)
+    rc, out, err = vlib.run_bin(b, ["-seed", str(ctx.seed), "-n", str(n), "-g", str(g), "-repo", vlib.REPO, "-stress", str(stress)], timeout=3000, env=env)
     res = None
     for line in out.split("\n"):
         if line.startswith("{"):
@@ -52,11 +52,11 @@ def run(ctx):
     pr, obligations, discharged = vlib.proof_stage(ctx)
     broken = pr["broken"] or not pr["ok"]
     n = ctx.n(48, 240)
-    rc, res, races, err = run_det(ctx, n, 8, race=False)
+    rc, res, races, err = run_det(ctx, n, 8, race=False, stress=ctx.n(12, 120))
     rres, rraces = None, []
     if ctx.thorough or broken:
         # thorough tier, and the search phase when a proof obligation broke: the same under the race detector, more goroutines
-        rrc, rres, rraces, rerr = run_det(ctx, n, 16, race=True)
+        rrc, rres, rraces, rerr = run_det(ctx, n, 16, race=True, stress=ctx.n(10, 120))
     found = False
     if res is None:
         ctx.violation(dict(kind="harness-crashed", stderr=err[-3000:]), "determinism harness crashed (a panic escaped or the runtime aborted)")
@@ -82,8 +82,8 @@ def run(ctx):
         trusted_base=vlib.trusted_base(pr, ["translator harness/cmd/trconc (go/ast; recognises v := pool.Get().(*T) followed by *v = ... or v.f = ... before the first read of v; writes to package-level variables classified by enclosing sync.Once literal or Lock/Unlock pair in the same block)",
                                             "Go race detector (thorough tier)"]),
         evaluations=res["jobs"] * 3, distinct_nontrivial=res["nontrivial"],
-        rule="one evaluation = one job (boolean op / Settle / Stroke / Offset / Flatten+Dash / text layout with a shared face / LoadFont incl. a font without name records / render to SVG+PDF+PS) in one of three phases: alone in order, shuffled after unrelated calls that populate the pools, concurrently under 8 goroutines; non-trivial = result longer than 8 bytes; distinct by construction (each job has its own generated input)",
-        programs=res["jobs"], disagreements_checked=len(res.get("mismatches") or []),
+        rule="one evaluation = one job (boolean op / Settle / Stroke / Offset / Flatten+Dash / text layout with a shared face / LoadFont incl. a font without name records / render to SVG+PDF+PS) in one of three phases: alone in order, shuffled after unrelated calls that populate the pools, concurrently under 8 goroutines, plus a stress phase (the sweep-line jobs repeated from 48 goroutines for a fixed wall time, every result compared with the sequential one); non-trivial = result longer than 8 bytes; distinct by construction (each job has its own generated input)",
+        programs=res["jobs"], stress_runs=res.get("stress_runs"), stress_goroutines=res.get("stress_goroutines"), disagreements_checked=len(res.get("mismatches") or []),
         job_kinds=res.get("kinds"), race_detector=dict(ran=bool(rres is not None), reports=len(rraces), jobs=(rres or {}).get("jobs")),
         generated_pool_sites=sites, generated_table_tail=table[-1500:],
         theorems=pr["theorems"], assumptions_per_theorem=pr["assumptions"],
